@@ -326,6 +326,8 @@ def abstract_real(payloads, labels, keys):
 # =========================================================================== (B) end to end
 
 SDL = """
+directive @defer(if: Boolean = true, label: String) on FRAGMENT_SPREAD | INLINE_FRAGMENT
+directive @stream(if: Boolean = true, label: String, initialCount: Int = 0) on FIELD
 type Query { hero: Hero  heroes: [Hero]  agen: [Hero]  nums: [Int]  a: Int  b: Int  nn: Int!  slow: Int }
 type Hero { id: Int  name: String  nn: String!  friends: [Hero]  afriends: [Hero]  pet: Hero  best: Hero }
 """
@@ -1194,6 +1196,17 @@ def part_wq(ck, m, tier):
             continue
         if mflat != r["flat"]:
             d = next((k for k, (a, b) in enumerate(zip(mflat, r["flat"])) if a != b), min(len(mflat), len(r["flat"])))
+            ie = r["flat"][d] if d < len(r["flat"]) else None
+            me = mflat[d] if d < len(mflat) else None
+            if ie and me and ie[0] == 1 and me[0] == 1 and ie[1] == me[1]:
+                extra = set(ie[3:3 + ie[2]]) - set(me[3:3 + me[2]])
+                shared = any(set(tg) >= {ie[1], x} for x in extra for (tg, _w) in g["tasks"].values())
+                if extra and shared:
+                    ck.violation("wq-stale-child-counter",
+                                 f"a task shared by group {ie[1]} and its child {sorted(extra)} completed last: the child is promoted "
+                                 "(announced) although it has no work left, is never completed and the queue never terminates",
+                                 dict(rep, impl_events=r["flat"], model_events=mflat))
+                    continue
             ck.violation("wq-events:" + key[:200],
                          f"work-queue events differ from the model at event {d}: impl {r['flat'][d] if d < len(r['flat']) else None} "
                          f"model {mflat[d] if d < len(mflat) else None}",
@@ -1308,6 +1321,9 @@ def drive_siq(ops, SIQ):
                     outs.append(("batch", [x for x in b]))
                 except StopAsyncIteration:
                     outs.append(("finished",))
+                    closed["v"] = True
+                except asyncio.CancelledError:
+                    outs.append(("cancelled",))
                     closed["v"] = True
                 except Exception:  # noqa: BLE001
                     outs.append(("raised",))
@@ -1462,7 +1478,12 @@ def part_siq(ck, m, tier):
         key = "siq:" + json.dumps(s)
         ck.note_case(key, nontrivial=any(o[0] == "batch" for o in ion))
         ck.count("siq_scripts")
-        if ion != mo:
+        if ("cancelled",) in ion:
+            ck.violation("siq-source-failure-cancels-pending-item",
+                         "StreamItemQueue: the source failed while an earlier item future was pending; the consumer of batches() "
+                         f"got CancelledError instead of the items followed by the failure (ops {s})",
+                         {"relation": "batches() = queue model", "ops": s, "impl": ion, "model": mo})
+        elif ion != mo:
             ck.violation(key, f"StreamItemQueue.batches() outputs differ from the model: impl {ion} model {mo}",
                          {"relation": "batches() = queue model", "ops": s, "impl": ion, "model": mo})
         else:
@@ -1480,6 +1501,16 @@ def part_siq(ck, m, tier):
 
 def run(tier):
     ck = Check("C05", tier)
+    seen_keys = set()
+    orig_violation = ck.violation
+
+    def violation(key, what, replay):  # one report per canonical key
+        if key in seen_keys:
+            ck.count("repeated_violation_reports")
+            return
+        seen_keys.add(key)
+        orig_violation(key, what, replay)
+    ck.violation = violation
     ck.assumptions += ASSUMPTIONS
     br = common.build("C05", models=("workqueue",))
     ck.proofs(br)
@@ -1494,9 +1525,14 @@ def run(tier):
                "{sync, all async, mixed} resolvers x early execution {off,on} x completion orders (DFS, exhaustive when small): "
                "payload stream valid.  (C) all well-formed StreamItemQueue scripts up to a length bound.  non-trivial = the run "
                "produced at least 2 work-queue events / 2 payloads / 1 delivered batch")
-    part_wq(ck, m, tier)
-    part_e2e(ck, m, tier)
-    part_siq(ck, m, tier)
+    import os
+    parts = os.environ.get("VERIF_C05_PARTS", "wq,e2e,siq").split(",")
+    if "wq" in parts:
+        part_wq(ck, m, tier)
+    if "e2e" in parts:
+        part_e2e(ck, m, tier)
+    if "siq" in parts:
+        part_siq(ck, m, tier)
     return ck.finish()
 
 
